@@ -3,6 +3,7 @@ CONSTANTS
   Names = {"a", "b", "XLONG"}
   BaseLens = {0, 2}
   Align = {}
+  EndAlign = {}
   MaxOps = 6
   MaxFiles = 2
   Srcs = {"exact", "short", "long"}
